@@ -46,11 +46,20 @@ pub fn reference(prev: &[f64; 6], limits: &Option<LimitSpec>) -> [f64; 6] {
 
 /// Constraint centres used as reference / in the documented cost: the arc midpoints computed by the oracle, in the 2 pi representative the
 /// library itself reports in its public `centers` field when that is congruent to the oracle's midpoint (which turn the centre of a
-/// wrap-around range is written in is not specified anywhere).
+/// wrap-around range is written in is not specified anywhere). A joint with from == to is unconstrained (the whole circle): no document says
+/// where the centre of a whole circle lies, so for such a joint the value the library reports (finite) is the centre.
 pub fn oracle_centres(l: &LimitSpec) -> [f64; 6] {
     let m = oracle_midpoints(l);
     let c = l.build().centers;
-    std::array::from_fn(|k| if l.from[k] != l.to[k] && c[k].is_finite() && crate::model::circ_dist(c[k], m[k]) <= 1e-9 { c[k] } else { m[k] })
+    std::array::from_fn(|k| {
+        if l.from[k] == l.to[k] {
+            if c[k].is_finite() { c[k] } else { m[k] }
+        } else if c[k].is_finite() && crate::model::circ_dist(c[k], m[k]) <= 1e-9 {
+            c[k]
+        } else {
+            m[k]
+        }
+    })
 }
 
 /// Arc midpoints computed by the oracle (documented meaning of "constraint centres").
@@ -193,7 +202,15 @@ impl Property for C04 {
                         }
                     }
                     let mut uu = *u;
-                    let found = if *five || r.dof == 5 {
+                    // "the same solution": equal to rounding where the pose determines the wrist angles. Within 1e-5 of a wrist singularity it does not
+                    // (J4 and J6 trade against each other inside the solver's 1e-6 acceptance band, and the continuation may reach the branch through
+                    // its shifted-pose recovery): there the branch counts as present when J1..J3 and J5 agree to 1e-4
+                    let s5 = r.model_angles(u)[4].sin().abs();
+                    let near_singular = s5 <= 1e-5;
+                    let found = if near_singular {
+                        ctx.class("containment: plain answer within 1e-5 of the wrist singularity (J1..J3, J5 compared)");
+                        sols.iter().any(|s| [0usize, 1, 2, 4].iter().all(|&k| crate::model::circ_dist(s[k], u[k]) <= 1e-4))
+                    } else if *five || r.dof == 5 {
                         // J6 is not solved: compare J1..J5
                         sols.iter().any(|s| {
                             uu[5] = s[5];
